@@ -97,7 +97,9 @@ def run_edges(acc: Acc, shard: Dict[str, Any]):
     from qv.props import c16
     names = sorted(c16.SPEC_LEVELS)
     if shard.get("tier") == "quick":
-        names = names[:13]
+        names = names[:10]
+    # names any caller may use: containing the separator of the edge's printed form, differing only in case, partly overlapping
+    names = names + ["q-0", "q-1", "a-b", "a", "b", "d1", "D1-X1"]
     # an edge connects two (different) qubits: self-loops are outside the property's domain
     pairs = [(a, b) for a, b in itertools.product(names, names) if a != b]
     k = 0
@@ -125,6 +127,10 @@ def run_edges(acc: Acc, shard: Dict[str, Any]):
                 acc.finding("edge/dict-lookup", "an edge is not found under its reversed orientation in a dict/set/list", case, None)
         if ea.contains(QubitIDObj(a0)) is not True or ea.get_connected_qubit_id(QubitIDObj(a0)).id != a1:
             acc.finding("edge/contains", "edge does not contain / connect its own qubits", {"a": [a0, a1]}, None)
+        for other in names:
+            if other not in (a0, a1) and ea.contains(QubitIDObj(other)):
+                acc.finding("edge/contains", "edge claims to contain a qubit it does not connect", {"a": [a0, a1], "other": other}, None)
+                break
 
 
 def run_sequences(acc: Acc, shard: Dict[str, Any]):
